@@ -277,10 +277,15 @@ def _tests_one(args):
         env = dict(os.environ, PYTHONPATH=os.path.join(wt, "src"), PYTHONDONTWRITEBYTECODE="1")
         ids = sorted(tests)
         t0 = time.time()
+        sampled = False
         if len(ids) > 400:
-            cmd = [PY, "-m", "pytest", "-q", "-x", "-p", "no:cacheprovider", "--timeout=300", "-n", "4", "-o", "addopts="]
-            files = sorted({i.split("::")[0] for i in ids})
-            cmd += files
+            # hot line: a deterministic sample of the covering tests (a survivor of the sample is re-run on the whole suite
+            # before anything is concluded from it)
+            import random
+            ids = sorted(random.Random(m["id"]).sample(ids, 300))
+            sampled = True
+        if False:
+            pass
         else:
             cmd = [PY, "-m", "pytest", "-q", "-x", "-p", "no:cacheprovider", "--timeout=300", "-o", "addopts="] + ids
         try:
@@ -290,7 +295,7 @@ def _tests_one(args):
                                                            else f"error{r.returncode}")
         except subprocess.TimeoutExpired:
             status, tail = "timeout", ""
-        return m["id"], {"status": status, "n_tests": len(ids), "wall_s": round(time.time() - t0, 1), "tail": tail if status != "survived" else ""}
+        return m["id"], {"status": status + ("-sample" if sampled and status == "survived" else ""), "n_tests": len(tests), "wall_s": round(time.time() - t0, 1), "tail": tail if status != "survived" else ""}
     finally:
         shutil.rmtree(d, ignore_errors=True)
 
@@ -326,7 +331,7 @@ def tests(jobs, covfile, template, only_unflagged=True, limit=None):
     print(len(small), "mutants with <= 400 covering tests,", len(big), "hot ones")
     from collections import Counter
     t0 = time.time()
-    for batch, j in ((small, jobs), (big, max(2, jobs // 4))):
+    for batch, j in ((small, jobs), (big, jobs)):
         with mp.Pool(j) as pool:
             for k, (mid, res) in enumerate(pool.imap_unordered(_tests_one, batch)):
                 done[str(mid)] = res
